@@ -20,6 +20,14 @@ def memo_documented(fs):
 
 
 def setup(drv):
+    """warm every build a quick check needs (all offline, incremental afterwards)"""
+    drv.build_mon()
+    drv.build_websim()
+    drv.build_cli(tag="default")
+    drv.build_cli(features=["variablelist"], tag="variablelist-only")
+    drv.build_server()
+    for fs in FEATURE_SETS:
+        drv.build_mon(features=fs, tag=ftag(fs))
     drv.build_mon()
 
 
